@@ -90,6 +90,9 @@ sexp sexp_write_simple_object (sexp ctx, sexp self, sexp_sint_t n, sexp obj, sex
   sexp t, x;
   sexp_gc_var1(args);
   sexp_sint_t i, len, nulls=0;
+  sexp_assert_type(ctx, sexp_oportp, SEXP_OPORT, out);
+  if (! sexp_pointerp(obj))
+    return sexp_write(ctx, obj, out);
   i = sexp_pointer_tag(obj);
   sexp_write_char(ctx, '{', out);
   if (i >= sexp_context_num_types(ctx)) {
